@@ -18,7 +18,12 @@
   * `BUint::long_mul` (= `overflowing_mul`): value `a*b mod 2^BITS`, flag ↔ `2^BITS ≤ a*b`
   * `BUint::{checked,wrapping,saturating,strict}_mul`, `mul` (`dbg` = `cfg(debug_assertions)`)
   * `BUint::widening_mul`, `BUint::carrying_mul`: `hi * 2^BITS + lo = a*b (+ carry)`; `u_mul_chain`
-    chains them into an exact two-word × one-word product
+    chains them into an exact two-word × one-word product; `u_mul_words` / `u_mul_words_digits`:
+    `k` chained `carrying_mul`s give the exact `(k+1)`-word product of a `k`-word number by a word
+    (any `k`), i.e. the digits of the result are those of a `BUint<N*(k+1)>` holding `a*b + carry`
+  * `*`, `*=` by value and by reference (`impl Mul`, `Mul<&T>`, `MulAssign`, … of `src/int/ops.rs`)
+    are the inherent `mul`: `u_mul_operator_forms`, `i_mul_operator_forms` (so `u_mul` / `i_mul` hold
+    for every operator form)
   * `BInt::overflowing_mul` (via `unsigned_abs`, `long_mul`, `checked_neg`): value `wrapS (a*b)`,
     flag ↔ `a*b ∉ [MIN, MAX]`; `MIN * -1 = (MIN, true)`; `x * MIN` overflows iff `x ∉ {0, 1}`
   * `BInt::{checked,wrapping,saturating,strict}_mul`, `mul`; `i_saturating_mul_side`: on overflow the
@@ -28,6 +33,7 @@
   `1 ≤ w`, `1 ≤ n` (the constant ONE must exist); everything else holds for all `w`, `n`.
 -/
 import Bnum.Lemmas.Mul
+import Bnum.Lemmas.C02Extra
 
 namespace Bnum.C02
 open Bnum
@@ -158,6 +164,51 @@ example : 1 ≤ 8 ∧ 1 ≤ 2 ∧ WF 8 2 [200, 7] ∧ WF 8 2 [9, 255] ∧ WF 8 2
     UI.wideningMul 8 [200, 7] [100, 250] = ([32, 90], [156, 7]) ∧
     UI.carryingMul 8 [9, 255] [100, 250] [156, 7] = ([32, 113], [114, 249]) := by decide
 
+/-- "so the helpers can be chained into exact multi-word arithmetic", any number of words:
+    `UI.mulWords` is the loop `for a in words { (lo, carry) = a.carrying_mul(b, carry); push lo }`;
+    for `k` words (little-endian, value `UW = Σ aᵢ·2^(BITS·i)`) it returns `k` well-formed low words
+    and a well-formed carry word with `Σ loᵢ·2^(BITS·i) + 2^(BITS·k)·carry' = (Σ aᵢ·2^(BITS·i))·b + carry`. -/
+theorem u_mul_words {w n : Nat} {b c : List Nat} {as : List (List Nat)} (hw : 1 ≤ w) (hn : 1 ≤ n)
+    (has : ∀ a ∈ as, WF w n a) (hb : WF w n b) (hc : WF w n c) :
+    (UI.mulWords w as b c).1.length = as.length ∧
+    (∀ x ∈ (UI.mulWords w as b c).1, WF w n x) ∧ WF w n (UI.mulWords w as b c).2 ∧
+    UI.UW w n (UI.mulWords w as b c).1 + M w n ^ as.length * U w (UI.mulWords w as b c).2
+      = UI.UW w n as * U w b + U w c :=
+  UI.mulWords_spec hw hn hb as c has hc
+example : 1 ≤ 8 ∧ 1 ≤ 2 ∧ (∀ a ∈ [[200, 7], [9, 255], [255, 255]], WF 8 2 a) ∧ WF 8 2 [100, 250] ∧
+    WF 8 2 [255, 255] ∧
+    UI.mulWords 8 [[200, 7], [9, 255], [255, 255]] [100, 250] [255, 255]
+      = ([[31, 90], [33, 113], [14, 255]], [99, 250]) := by decide
+
+/-- the same on digits: the low words followed by the carry word, concatenated, are the `N·(k+1)`
+    digits of the exact value `a·b + carry`, where `a` is the `N·k`-digit number whose digits are the
+    concatenated input words. -/
+theorem u_mul_words_digits {w n : Nat} {b c : List Nat} {as : List (List Nat)} (hw : 1 ≤ w)
+    (hn : 1 ≤ n) (has : ∀ a ∈ as, WF w n a) (hb : WF w n b) (hc : WF w n c) :
+    WF w (n * (as.length + 1)) ((UI.mulWords w as b c).1 ++ [(UI.mulWords w as b c).2]).flatten ∧
+    U w ((UI.mulWords w as b c).1 ++ [(UI.mulWords w as b c).2]).flatten
+      = U w as.flatten * U w b + U w c :=
+  UI.mulWords_digits hw hn has hb hc
+example : ([[31, 90], [33, 113], [14, 255]] ++ [[99, 250]]).flatten
+      = [31, 90, 33, 113, 14, 255, 99, 250] ∧
+    U 8 [31, 90, 33, 113, 14, 255, 99, 250]
+      = U 8 [200, 7, 9, 255, 255, 255] * U 8 [100, 250] + U 8 [255, 255] := by decide
+
+/-- `*`, `*=` (`impl Mul for T`, `Mul<&T> for T`, `Mul<T> for &T`, `Mul<&T> for &T`, `MulAssign<T>`,
+    `MulAssign<&T>`; `src/int/ops.rs`) on `BUint<N>`: all delegate to the inherent `mul`, so `u_mul`
+    describes every operator form. -/
+theorem u_mul_operator_forms (w n : Nat) (dbg : Bool) (a b : List Nat) :
+    Ops.mul_vv (Ops.buint w n) dbg a b = UI.mul w dbg a b ∧
+    Ops.mul_vr (Ops.buint w n) dbg a b = UI.mul w dbg a b ∧
+    Ops.mul_rv (Ops.buint w n) dbg a b = UI.mul w dbg a b ∧
+    Ops.mul_rr (Ops.buint w n) dbg a b = UI.mul w dbg a b ∧
+    Ops.mulAssign (Ops.buint w n) dbg a b = UI.mul w dbg a b ∧
+    Ops.mulAssignRef (Ops.buint w n) dbg a b = UI.mul w dbg a b :=
+  Ops.mul_forms_buint w n dbg a b
+example : Ops.mulAssignRef (Ops.buint 8 3) true [200, 7, 255] [100, 250, 3] = Outcome.panic ∧
+    Ops.mul_rr (Ops.buint 8 3) false [200, 7, 255] [100, 250, 3] = Outcome.ok [32, 90, 144] := by
+  decide
+
 /-! ## `BInt<N>` -/
 
 /-- `BInt::overflowing_mul` -/
@@ -240,5 +291,26 @@ theorem i_mul {w n : Nat} {a b : List Nat} (hw : 2 ≤ w) (hn : 1 ≤ n)
 example : 2 ≤ 8 ∧ 1 ≤ 3 ∧ WF 8 3 [200, 7, 255] ∧ WF 8 3 [100, 250, 3] ∧
     II.mul 8 true [200, 7, 255] [100, 250, 3] = Outcome.panic ∧
     II.mul 8 false [200, 7, 255] [100, 250, 3] = Outcome.ok [32, 90, 144] := by decide
+
+/-- `*`, `*=` by value / by reference on `BInt<N>` are the inherent `mul` (see `i_mul`) -/
+theorem i_mul_operator_forms (w n : Nat) (dbg : Bool) (a b : List Nat) :
+    Ops.mul_vv (Ops.bint w n) dbg a b = II.mul w dbg a b ∧
+    Ops.mul_vr (Ops.bint w n) dbg a b = II.mul w dbg a b ∧
+    Ops.mul_rv (Ops.bint w n) dbg a b = II.mul w dbg a b ∧
+    Ops.mul_rr (Ops.bint w n) dbg a b = II.mul w dbg a b ∧
+    Ops.mulAssign (Ops.bint w n) dbg a b = II.mul w dbg a b ∧
+    Ops.mulAssignRef (Ops.bint w n) dbg a b = II.mul w dbg a b :=
+  Ops.mul_forms_bint w n dbg a b
+example : Ops.mulAssignRef (Ops.bint 8 3) true [200, 7, 255] [100, 250, 3] = Outcome.panic ∧
+    Ops.mul_rr (Ops.bint 8 3) false [200, 7, 255] [100, 250, 3] = Outcome.ok [32, 90, 144] := by
+  decide
+
+/-- non-vacuity of `i_saturating_mul_side`: both saturation directions occur -/
+example : ¬ repS (M 8 3) (S 8 [200, 7, 255] * S 8 [100, 250, 3]) ∧
+    S 8 [200, 7, 255] * S 8 [100, 250, 3] < 0 ∧
+    II.saturatingMul 8 [200, 7, 255] [100, 250, 3] = iMin 8 3 ∧
+    ¬ repS (M 8 3) (S 8 [200, 7, 255] * S 8 [100, 250, 255]) ∧
+    0 < S 8 [200, 7, 255] * S 8 [100, 250, 255] ∧
+    II.saturatingMul 8 [200, 7, 255] [100, 250, 255] = iMax 8 3 := by decide
 
 end Bnum.C02
